@@ -261,7 +261,9 @@ func init() {
 				if len(topped) == 0 {
 					for _, w := range ws {
 						up, down, ok := credits(w.u)
-						if (!ok || up <= 0 || down <= 0) && !w.srv.IsClosed() {
+						// (credit only ever changes in an upload round, so credit <= 0 means a completed round left it so;
+						// deletion and expiry are admin changes that take effect at the *next* round and are judged after it)
+						if ok && (up <= 0 || down <= 0) && !w.srv.IsClosed() {
 							vrt.Fail("exhausted-users-cut-off", "at quiescence user %d has credit %d/%d (exists=%v) in the database, yet its session %d is live", w.u, up, down, ok, w.s)
 						}
 					}
